@@ -124,4 +124,42 @@ _Bool g_fixed; int g_prec, g_base, g_vals;
   __CPROVER_requires(g_fixed == 0 && g_prec == 6 && g_base == 10 && g_vals == 0)                                       \
   __CPROVER_assigns(g_fixed, g_prec, g_base, g_vals)                                                                   \
   __CPROVER_ensures(1)
+/* the header writer's callees that receive the stream: every value they insert is readable back and they leave the format state as they found it
+   (this is what K_VAL() assumes of them in the callers' skeletons) */
+#define CALLEE_STREAM_CONTRACT                                                                                     \
+  __CPROVER_requires(!FMT_LOSSY && g_vals == 0)                                                                       \
+  __CPROVER_assigns(g_fixed, g_prec, g_base, g_vals)                                                                   \
+  __CPROVER_ensures(g_fixed == __CPROVER_old(g_fixed) && g_prec == __CPROVER_old(g_prec) && g_base == __CPROVER_old(g_base))
+#define LC_STREAM_KEEP(f0, p0, b0) __CPROVER_assigns(g_fixed, g_prec, g_base, g_vals) __CPROVER_loop_invariant(!FMT_LOSSY && g_vals >= 0 && g_vals <= 1000 && g_fixed == (f0) && g_prec == (p0) && g_base == (b0))
+#define CONTRACT_K_hdrw_patient_position CALLEE_STREAM_CONTRACT
+#define LC_K_hdrw_patient_position_0 LC_STREAM_KEEP(g_f0, g_p0, g_b0)
+#define LC_K_hdrw_patient_position_1 LC_STREAM_KEEP(g_f0, g_p0, g_b0)
+#define LC_K_hdrw_patient_position_2 LC_STREAM_KEEP(g_f0, g_p0, g_b0)
+#define LC_K_hdrw_patient_position_3 LC_STREAM_KEEP(g_f0, g_p0, g_b0)
+#define CONTRACT_K_hdrw_time_frame_definitions CALLEE_STREAM_CONTRACT
+#define LC_K_hdrw_time_frame_definitions_0 LC_STREAM_KEEP(g_f0, g_p0, g_b0)
+#define LC_K_hdrw_time_frame_definitions_1 LC_STREAM_KEEP(g_f0, g_p0, g_b0)
+#define LC_K_hdrw_time_frame_definitions_2 LC_STREAM_KEEP(g_f0, g_p0, g_b0)
+#define LC_K_hdrw_time_frame_definitions_3 LC_STREAM_KEEP(g_f0, g_p0, g_b0)
+#define CONTRACT_K_hdrw_energy_windows CALLEE_STREAM_CONTRACT
+#define LC_K_hdrw_energy_windows_0 LC_STREAM_KEEP(g_f0, g_p0, g_b0)
+#define LC_K_hdrw_energy_windows_1 LC_STREAM_KEEP(g_f0, g_p0, g_b0)
+#define LC_K_hdrw_energy_windows_2 LC_STREAM_KEEP(g_f0, g_p0, g_b0)
+#define LC_K_hdrw_energy_windows_3 LC_STREAM_KEEP(g_f0, g_p0, g_b0)
+#define CONTRACT_K_hdrw_image_data_descriptions CALLEE_STREAM_CONTRACT
+#define LC_K_hdrw_image_data_descriptions_0 LC_STREAM_KEEP(g_f0, g_p0, g_b0)
+#define LC_K_hdrw_image_data_descriptions_1 LC_STREAM_KEEP(g_f0, g_p0, g_b0)
+#define LC_K_hdrw_image_data_descriptions_2 LC_STREAM_KEEP(g_f0, g_p0, g_b0)
+#define LC_K_hdrw_image_data_descriptions_3 LC_STREAM_KEEP(g_f0, g_p0, g_b0)
+#define CONTRACT_K_hdrw_modality CALLEE_STREAM_CONTRACT
+#define LC_K_hdrw_modality_0 LC_STREAM_KEEP(g_f0, g_p0, g_b0)
+#define LC_K_hdrw_modality_1 LC_STREAM_KEEP(g_f0, g_p0, g_b0)
+#define LC_K_hdrw_modality_2 LC_STREAM_KEEP(g_f0, g_p0, g_b0)
+#define LC_K_hdrw_modality_3 LC_STREAM_KEEP(g_f0, g_p0, g_b0)
+#define CONTRACT_K_hdrw_radionuclide_info CALLEE_STREAM_CONTRACT
+#define LC_K_hdrw_radionuclide_info_0 LC_STREAM_KEEP(g_f0, g_p0, g_b0)
+#define LC_K_hdrw_radionuclide_info_1 LC_STREAM_KEEP(g_f0, g_p0, g_b0)
+#define LC_K_hdrw_radionuclide_info_2 LC_STREAM_KEEP(g_f0, g_p0, g_b0)
+#define LC_K_hdrw_radionuclide_info_3 LC_STREAM_KEEP(g_f0, g_p0, g_b0)
+_Bool g_f0; int g_p0, g_b0; /* ghost copies of the entry state (set by the harness), for the loops' invariants */
 #endif
